@@ -1,6 +1,7 @@
 """C03 — exact landscape equals the k-th-largest-tent definition everywhere."""
 import numpy as np
 
+from .. import forms as vforms
 from ..oracles import landscape as OL
 from ..util import scale_of
 
@@ -233,6 +234,15 @@ def run_case(ctx, k, rng):
                 ctx.note("form:" + form)
             except Exception as e:
                 ctx.exception("constructs [%s input]" % form, e)
+    elif sub == 2 and rng.random() < 0.4:
+        # memory layout of the input: Fortran order, np.array([births, deaths]).T, a strided window, read-only
+        arg, nm = vforms.relayout(rng, bars)
+        try:
+            df, cf = build(ctx, [arg], 0)
+            judge(ctx, bars, df, cf, tag=" [another memory layout]")
+            ctx.note("form:layout:" + nm)
+        except Exception as e:
+            ctx.exception("constructs [another memory layout]", e, layout=nm)
     elif sub == 2:
         # input order is irrelevant
         try:
